@@ -247,6 +247,19 @@ func valueEdgeFacts(b *ssa.BasicBlock, succ int) []string {
 			break
 		}
 	}
+	// `parsed := dec.ExpectA() && dec.ExpectB() && …; if !parsed`: the false
+	// edge of the conjunction means one of the Expect* calls failed
+	for _, a := range edgeAtoms(b, succ) {
+		if ph, ok := a.V.(*ssa.Phi); ok && a.True == -1 && conjunctionOfExpects(ph) {
+			out = append(out, "fail:decoder-expect")
+		}
+		// `ok := !p && q; if ok`: the named boolean is true only along the
+		// edges that do not carry the constant false — what those edges
+		// establish holds here
+		if ph, ok := a.V.(*ssa.Phi); ok && a.True != 0 {
+			out = append(out, phiImpliedFacts(ph, a.True == 1)...)
+		}
+	}
 	for _, a := range edgeAtoms(b, succ) {
 		nm := a.V.Name()
 		if nm == "" {
@@ -1592,4 +1605,100 @@ func valueGen(f facts, i ssa.Instruction) facts {
 		}
 	}
 	return f
+}
+
+// conjunctionOfExpects: the boolean phi is false only when a
+// (*Decoder).Expect* call returned false: every constant-false edge comes from
+// the false edge of a test of such a call, and every other edge is the result
+// of such a call itself.
+func conjunctionOfExpects(ph *ssa.Phi) bool {
+	isExpect := func(v ssa.Value) bool {
+		call, ok := v.(*ssa.Call)
+		if !ok {
+			return false
+		}
+		return strings.HasPrefix(callKey(call), "(*Decoder).Expect")
+	}
+	some := false
+	for k, e := range ph.Edges {
+		if c, ok := e.(*ssa.Const); ok {
+			if c.Value == nil || c.Value.String() != "false" {
+				return false
+			}
+			pred := ph.Block().Preds[k]
+			if len(pred.Instrs) == 0 {
+				return false
+			}
+			ifi, ok := pred.Instrs[len(pred.Instrs)-1].(*ssa.If)
+			if !ok || pred.Succs[1] != ph.Block() || !isExpect(ifi.Cond) {
+				return false
+			}
+			some = true
+			continue
+		}
+		if !isExpect(e) {
+			return false
+		}
+		some = true
+	}
+	return some
+}
+
+// phiImpliedFacts: the edge facts common to every way the boolean phi can have
+// the given truth value (edges carrying the opposite constant are excluded;
+// for each remaining edge, the facts of the branch edges on the single-
+// predecessor chain leading to it, and of the value itself when it is a
+// condition).
+func phiImpliedFacts(ph *ssa.Phi, truth bool) []string {
+	if bt, ok := ph.Type().Underlying().(*types.Basic); !ok || bt.Kind() != types.Bool {
+		return nil
+	}
+	var acc map[string]bool
+	for k, e := range ph.Edges {
+		if c, ok := e.(*ssa.Const); ok && c.Value != nil {
+			if (c.Value.String() == "true") != truth {
+				continue // cannot be this edge
+			}
+		}
+		fs := map[string]bool{}
+		// the value itself
+		if _, isConst := e.(*ssa.Const); !isConst {
+			for _, a := range atomsOf(e, truth) {
+				for _, f := range atomFacts(a) {
+					fs[f] = true
+				}
+			}
+		}
+		// the chain of single predecessors
+		cur := ph.Block().Preds[k]
+		next := ph.Block()
+		for depth := 0; depth < 6 && cur != nil; depth++ {
+			for j, sc := range cur.Succs {
+				if sc == next {
+					for _, f := range edgeFacts(cur, j) {
+						fs[f] = true
+					}
+				}
+			}
+			if len(cur.Preds) != 1 {
+				break
+			}
+			next, cur = cur, cur.Preds[0]
+		}
+		if acc == nil {
+			acc = fs
+		} else {
+			for f := range acc {
+				if !fs[f] {
+					delete(acc, f)
+				}
+			}
+		}
+	}
+	var out []string
+	for f := range acc {
+		out = append(out, f)
+	}
+	sort.Strings(out)
+	return out
 }
